@@ -298,8 +298,18 @@ def l5(ctx, rep):
             if fn.name in ('sample', '_sample_row', '_get_normal_samples') or fn.module.name == 'copulas.datasets':
                 continue
             n += 1
-            rep.bad('L5.pure', fn, s.call, f'{s.what} during fit: two equal fresh models fitted on the same data differ, '
-                    'and fitting advances the global generator')
+            # keyed by the fit entry point of the class that owns the site and by the kind of consumption, so that moving the
+            # call into a helper or renaming a temporary does not turn a recorded finding into a "new" one
+            owner = fn.cls
+            if owner is None:
+                callers = [g for g in closure.values() if g.cls is not None and any(t.kind == 'proj' and t.fn is fn for c in walk_no_nested(g.node)
+                                                                                     if isinstance(c, ast.Call) for t in ctx.cg.targets(g, c))]
+                owner = callers[0].cls if callers else None
+            entry = owner.lookup('fit') if owner is not None else None
+            key_fn = entry if entry is not None else fn
+            where = f'{fn.short} line {s.call.lineno}: `{short(s.call, 60)}`'
+            rep.bad('L5.pure', key_fn, s.call, f'{s.what} during fit ({where}): two equal fresh models fitted on the same data differ, '
+                    'and fitting advances the global generator', construct=f'{owner.name if owner is not None else fn.short}: {s.what} during fit')
     for f in fits:
         rep.ok('L5.pure', f, f.node.name, 'closure scanned', construct='def fit') if not rng.consumes_unscoped(f) else None
     rep.floor('L5.pure', 'fit entry points', len(fits), 5)
